@@ -162,7 +162,7 @@ let run (pf : profile) (line : string) (impl : out) : out * bool * string =
   let fam = parts.(0) in
   let op = if Array.length parts > 1 then parts.(1) else "" in
   let ty = if Array.length parts > 2 then parts.(2) else "" in
-  let m = mode_of_int (int_of_string t.(1)) in
+  let m = mode_of_int (int_of_string t.(1) land 7) in   (* mode + 8 = same mode, run after another thread's mode changes *)
   let a k = t.(2 + k) in
   let has k = Array.length t > 2 + k in
   let nn k = if has k then zd (a k) else Z0 in
